@@ -468,54 +468,72 @@ pub struct ExploreStats {
     pub bound_completed: i64,
 }
 
-/// Iterative context bounding (CHESS): all schedules with at most c preemptions, c = 0..=bound.
-/// `run` executes one schedule for a prefix and returns its point records; it judges the execution
-/// itself (and may return false to stop the search).
-pub fn explore(bound: usize, max_schedules: u64, mut run: impl FnMut(&[u8]) -> (Vec<PointRec>, bool)) -> ExploreStats {
-    let mut stats = ExploreStats { schedules: 0, by_bound: vec![0; bound + 1], max_points: 0, context_switches: 0, capped: false, bound_completed: -1 };
-    // work list of (prefix, preemptions used by the prefix); processed in order of increasing cost
-    let mut queues: Vec<Vec<Vec<u8>>> = vec![vec![]; bound + 1];
-    queues[0].push(vec![]);
-    for c in 0..=bound {
-        while let Some(prefix) = queues[c].pop() {
-            if stats.schedules >= max_schedules {
-                stats.capped = true;
-                return stats;
-            }
-            let (points, go_on) = run(&prefix);
-            stats.schedules += 1;
-            stats.by_bound[c] += 1;
-            stats.max_points = stats.max_points.max(points.len());
-            let mut prev: Option<u8> = None;
-            for p in &points {
-                let t = p.enabled[p.chosen as usize];
-                if prev.is_some() && prev != Some(t) {
-                    stats.context_switches += 1;
-                }
-                prev = Some(t);
-            }
-            if !go_on {
-                return stats;
-            }
-            // cost of the prefix up to point i
-            let mut cost = 0usize;
-            for (i, p) in points.iter().enumerate() {
-                if i >= prefix.len() {
-                    for alt in 1..p.enabled.len() {
-                        let ncost = cost + if p.running_enabled { 1 } else { 0 };
-                        if ncost <= bound {
-                            let mut np: Vec<u8> = points[..i].iter().map(|q| q.chosen).collect();
-                            np.push(alt as u8);
-                            queues[ncost].push(np);
-                        }
-                    }
-                }
-                if p.running_enabled && p.chosen != 0 {
-                    cost += 1;
+/// Preemptions used by an execution, and the alternatives (child prefixes) that branch off at or
+/// after position `from` while staying within `bound`.
+fn children(points: &[PointRec], from: usize, bound: usize) -> (usize, Vec<Vec<u8>>) {
+    let mut cost = 0usize;
+    let mut out = vec![];
+    for (i, p) in points.iter().enumerate() {
+        if i >= from {
+            for alt in 1..p.enabled.len() {
+                let ncost = cost + if p.running_enabled { 1 } else { 0 };
+                if ncost <= bound {
+                    let mut np: Vec<u8> = points[..i].iter().map(|q| q.chosen).collect();
+                    np.push(alt as u8);
+                    out.push(np);
                 }
             }
         }
-        stats.bound_completed = c as i64;
+        if p.running_enabled && p.chosen != 0 {
+            cost += 1;
+        }
     }
-    stats
+    (cost, out)
+}
+
+/// Context-bounded exploration (CHESS): every schedule with at most `bound` preemptions in the
+/// subtree below `start` (the empty prefix = everything).  With `expand_only` the start prefix
+/// is executed and its children are returned instead of being explored (used to spread one case
+/// over several worker processes).  `run` executes one schedule for a prefix, judges it itself and
+/// may return false to stop the search.
+pub fn explore_from(bound: usize, start: Vec<u8>, expand_only: bool, max_schedules: u64, mut run: impl FnMut(&[u8]) -> (Vec<PointRec>, bool)) -> (ExploreStats, Vec<Vec<u8>>) {
+    let mut stats = ExploreStats { schedules: 0, by_bound: vec![0; bound + 1], max_points: 0, context_switches: 0, capped: false, bound_completed: -1 };
+    let mut stack: Vec<Vec<u8>> = vec![start];
+    let mut handed_out = vec![];
+    while let Some(prefix) = stack.pop() {
+        if stats.schedules >= max_schedules {
+            stats.capped = true;
+            return (stats, handed_out);
+        }
+        let (points, go_on) = run(&prefix);
+        stats.schedules += 1;
+        stats.max_points = stats.max_points.max(points.len());
+        let mut prev: Option<u8> = None;
+        for p in &points {
+            let t = p.enabled[p.chosen as usize];
+            if prev.is_some() && prev != Some(t) {
+                stats.context_switches += 1;
+            }
+            prev = Some(t);
+        }
+        let (cost, kids) = children(&points, prefix.len(), bound);
+        if cost < stats.by_bound.len() {
+            stats.by_bound[cost] += 1;
+        }
+        if !go_on {
+            return (stats, handed_out);
+        }
+        if expand_only {
+            handed_out = kids;
+            stats.bound_completed = bound as i64;
+            return (stats, handed_out);
+        }
+        stack.extend(kids);
+    }
+    stats.bound_completed = bound as i64;
+    (stats, handed_out)
+}
+
+pub fn explore(bound: usize, max_schedules: u64, run: impl FnMut(&[u8]) -> (Vec<PointRec>, bool)) -> ExploreStats {
+    explore_from(bound, vec![], false, max_schedules, run).0
 }
